@@ -9,6 +9,7 @@ match must be unique in both directions; otherwise nothing is renamed and the mi
     {def path: {"sig": signature string, "where": [[crate, config], ..], "public": bool}}"""
 import json
 import os
+import re
 
 SIG_PATH = os.path.join(os.path.dirname(os.path.abspath(__file__)), "known_signatures.json")
 
@@ -79,3 +80,111 @@ def undo_renames(j, known):
             b["item_name"] = b["def"].rsplit("::", 1)[-1]
             b["renamed_from"] = [n for n, m in renames.items() if m == b["def"]][0]
     return renames
+
+
+# ---------------------------------------------------------------------------------------------------------------------
+# A private method that did not use `self`, turned into a free (or associated) function of the same module: same
+# parameters without the receiver, same result, the old name gone, the new one not known.  The receiver is put back as an
+# unused first parameter (locals shifted by one, a placeholder operand at every call site), so that the rules — which name
+# parameters by position — read the function exactly as before.
+
+def _strip_sig(sig):
+    s = _norm(sig)
+    s = re.sub(r"^for<[^>]*>\s*", "", s)
+    return re.sub(r"'[a-z_0-9]+\s*", "", s)
+
+
+def _params(sig):
+    """([parameter types], result type) of a `fn(..) -> ..` signature string, lifetimes removed; None if not understood."""
+    s = _strip_sig(sig)
+    if not s.startswith("fn("):
+        return None
+    depth, i, start, ps = 0, 3, 3, []
+    while i < len(s):
+        if s.startswith("->", i):
+            i += 2
+            continue
+        c = s[i]
+        if c in "(<[":
+            depth += 1
+        elif c in ")>]":
+            if c == ")" and depth == 0:
+                break
+            depth -= 1
+        elif c == "," and depth == 0:
+            ps.append(s[start:i].strip())
+            start = i + 1
+        i += 1
+    else:
+        return None
+    last = s[start:i].strip()
+    if last:
+        ps.append(last)
+    return ps, s[i + 1:].strip()
+
+
+def undo_rehoming(j, known):
+    """Returns {new name: old name} of the re-homed methods put back (j is modified in place)."""
+    if not known:
+        return {}
+    from . import inline
+    crate, tag = j.get("crate"), j.get("tag")
+    present = {}
+    for b in j["bodies"]:
+        if b.get("promoted") is None and b["kind"] in ("fn", "method"):
+            present.setdefault(b["def"], []).append(b)
+    here = {d for d, info in known.items() if [crate, tag] in info.get("where", [])}
+    missing = [d for d in sorted(here) if d not in present and not known[d].get("public")]
+    new = [d for d in sorted(present) if d not in known and len(present[d]) == 1 and not str(present[d][0].get("vis", "")).startswith("Public")]
+    cand = {}
+    for m in missing:
+        pm = _params(known[m].get("sig"))
+        owner = _parent(m)
+        if pm is None or not pm[0] or pm[0][0] not in ("&" + owner, "&mut " + owner):
+            continue
+        homes = {owner, _parent(owner)}
+        cand[m] = [n for n in new if _parent(n) in homes and _params(present[n][0].get("sig")) == (pm[0][1:], pm[1])]
+    moved = {}
+    for m, ns in cand.items():
+        if len(ns) == 1 and sum(1 for ns2 in cand.values() if ns[0] in ns2) == 1:
+            moved[ns[0]] = m
+    # the function must only ever be called (a function value handed around cannot be given a receiver)
+    def as_value(x, n):
+        if isinstance(x, dict):
+            if x.get("k") == "const" and n in json.dumps(x):
+                return True
+            return any(as_value(v, n) for v in x.values())
+        if isinstance(x, list):
+            return any(as_value(v, n) for v in x)
+        return False
+    moved = {n: m for n, m in moved.items() if not as_value(j["bodies"], n)}
+    if not moved:
+        return {}
+    j["bodies"] = _replace(j["bodies"], moved, [(n + "::{", m + "::{") for n, m in moved.items()])
+    back = set(moved.values())
+    inline._PMAP = None
+    shift = lambda l: l if l == 0 else l + 1
+    for i, b in enumerate(j["bodies"]):
+        if b.get("promoted") is None and b["def"] in back and b["kind"] in ("fn", "method"):
+            m = b["def"]
+            recv = _norm(known[m]["sig"])
+            locals_ = b["locals"]
+            nb = {k: (v if k == "locals" else inline._renumber(v, shift, None)) for k, v in b.items()}
+            nb["locals"] = locals_[:1] + [{"ty": _params(recv)[0][0], "mut": False}] + locals_[1:]
+            nb["arg_count"] = b["arg_count"] + 1
+            for d in nb.get("debug", []):
+                if isinstance(d.get("arg"), int):
+                    d["arg"] += 1
+            nb["kind"] = "method"
+            nb["impl_self"] = _parent(m)
+            nb["item_name"] = m.rsplit("::", 1)[-1]
+            nb["sig"] = known[m]["sig"]
+            nb["rehomed_from"] = [n for n, mm in moved.items() if mm == m][0]
+            j["bodies"][i] = nb
+    for b in j["bodies"]:
+        for bl in b.get("blocks", []):
+            t = bl.get("term") or {}
+            if t.get("k") == "call" and t.get("callee") in back:
+                ty = _params(_norm(known[t["callee"]]["sig"]))[0][0]
+                t["args"] = [{"k": "const", "ty": ty, "val": "<receiver dropped by the edit>"}] + t["args"]
+    return moved
